@@ -198,6 +198,24 @@ theorem toData_good (c : Cfg) (sk nb : Bool) (hk : sk = true → c.cplx = false 
           · simp only [h3, Ev.npos, List.cons_append, List.nil_append, nposList]
             rw [ih.2]; simp [hn]; omega
       · exact good_strData ..
+  | _, .obj id tn disp attrs, st => by
+      simp only [toData]
+      split
+      · split
+        · simp [Good, Ev.wf, Ev.npos]
+        · apply good_record
+          have h1 := good_strData c 2 "__ptype" (bump st) sk nb
+          have h2 := good_strData c 1 tn (strData c 2 "__ptype" (bump st)).2 sk nb
+          have ih := attrsData_good c sk nb hk hb attrs (strData c 1 tn (strData c 2 "__ptype" (bump st)).2).2
+          have hkey : (!sk || (strData c 2 "__ptype" (bump st)).1.isStr) = true := by
+            cases sk with
+            | false => rfl
+            | true => simp [strData_plain c 2 _ _ (by have := (hk rfl).2; omega), Ev.isStr]
+          refine ⟨?_, ?_⟩
+          · simp only [Ev.wf, hkeys, wfList, h1.1, h2.1, ih.1, ih.2.1, hkey, Bool.and_true]
+          · simp only [Ev.npos, nposList]
+            rw [ih.2.2, h2.2, h1.2]; simp; omega
+      · exact good_strData ..
 
 theorem listData_good (c : Cfg) (sk nb : Bool) (hk : sk = true → c.cplx = false ∧ c.dedup ≤ 1) (hb : nb = true → c.bin = false) :
     ∀ (vs : List V) (st : St), GoodL sk nb st (listData c vs st)
@@ -250,6 +268,21 @@ theorem skeyData_good (c : Cfg) (sk nb : Bool) (hk : sk = true → c.cplx = fals
         | false => rfl
         | true => simp [strData_plain c 2 k.disp st (by have := (hk rfl).2; omega), Ev.isStr]
       simp only [skeyData, GoodL, wfList, nposList, hkeys, h1.1, h2.1, h3.1, h3.2.1, hkey, Bool.and_true, true_and]
+      rw [h3.2.2, h2.2, h1.2]; omega
+
+theorem attrsData_good (c : Cfg) (sk nb : Bool) (hk : sk = true → c.cplx = false ∧ c.dedup ≤ 1) (hb : nb = true → c.bin = false) :
+    ∀ (as : List (String × V)) (st : St),
+      hkeys sk (attrsData c as st).1 = true ∧ GoodL sk nb st (attrsData c as st)
+  | [], st => by simp [attrsData, GoodL, wfList, nposList, hkeys]
+  | (k, v) :: as, st => by
+      have h1 := good_strData c 2 k st sk nb
+      have h2 := toData_good c sk nb hk hb 1 v (strData c 2 k st).2
+      have h3 := attrsData_good c sk nb hk hb as (toData c 1 v (strData c 2 k st).2).2
+      have hkey : (!sk || (strData c 2 k st).1.isStr) = true := by
+        cases sk with
+        | false => rfl
+        | true => simp [strData_plain c 2 k st (by have := (hk rfl).2; omega), Ev.isStr]
+      simp only [attrsData, GoodL, wfList, nposList, hkeys, h1.1, h2.1, h3.1, h3.2.1, hkey, Bool.and_true, true_and]
       rw [h3.2.2, h2.2, h1.2]; omega
 end
 
